@@ -296,6 +296,16 @@ func (ex *Explorer) noteKnown(kf *KnownFinding, c *Ctx, m Model) {
 	ex.mu.Lock()
 	defer ex.mu.Unlock()
 	id := kf.Key + "|" + kf.Region
+	if len(kf.Choices) > 0 {
+		var ks []string
+		for k := range kf.Choices {
+			ks = append(ks, k)
+		}
+		sort.Strings(ks)
+		for _, k := range ks {
+			id += fmt.Sprintf("|%s=%d", k, kf.Choices[k])
+		}
+	}
 	if _, ok := ex.res.Known[id]; ok {
 		ex.res.Known[id].Count++
 		return
